@@ -595,6 +595,38 @@ func (c *Ctx) CYC(rule string) []report.Obligation {
 		out = append(out, verdict(good, rule, "extends :: recursion guarded by cycleTracker.Add", c.P.Pos(f.Pos()),
 			"every recursive call of applyServiceExtends is dominated by tracker.Add(...) returning no error, and passes the extended tracker on",
 			"a recursive call of applyServiceExtends is not guarded by a successful tracker.Add (or does not pass the new tracker): an extends cycle recurses forever"))
+		// the chain is recorded as (file that defines the service being resolved, that service): the file is the
+		// one the context names, and the services of another file are resolved in a context naming that file
+		if len(adds) == 1 && len(rec) >= 1 {
+			a := adds[0].Common().Args
+			fromCtx := func(v ssa.Value) bool {
+				ta, ok := v.(*ssa.TypeAssert)
+				if !ok {
+					return false
+				}
+				call, ok := ta.X.(*ssa.Call)
+				return ok && call.Call.IsInvoke() && call.Call.Method.Name() == "Value"
+			}
+			keyOK := len(a) == 3 && fromCtx(a[1]) && len(f.Params) > 1 && a[2] == ssa.Value(f.Params[1])
+			out = append(out, verdict(keyOK, rule, "extends :: the tracker records (defining file, service being resolved)", c.P.InstrPos(adds[0]),
+				"Add receives the file named by the context and the name parameter", "the tracker key mixes the file of the base with the name of the extending service (or the other way round): same-named services in two files collide and acyclic chains are rejected, depending on visit order"))
+			var wv ssa.Value
+			for _, cs := range callSites(f, func(com *ssa.CallCommon) bool { return staticName(com) == "context.WithValue" }) {
+				if mi, ok := cs.Common().Args[1].(*ssa.MakeInterface); ok && strings.HasSuffix(c.P.TypeStr(mi.X.Type()), "ComposeFileKey") {
+					wv = cs.(ssa.Value)
+				}
+			}
+			ctxOK := wv != nil
+			if ctxOK {
+				for _, rc := range rec {
+					if !c.derivedFrom(rc.Common().Args[0], wv, 3) {
+						ctxOK = false
+					}
+				}
+			}
+			out = append(out, verdict(ctxOK, rule, "extends :: services of an extended file are resolved in the context of that file", c.P.Pos(f.Pos()),
+				"the recursive call receives a context that names the extended file when the base comes from another file", "hops inside an extended file are recorded under the top-level file name: services of the two files with the same name collide"))
+		}
 		if add := need("loader.(*cycleTracker).Add"); add != nil {
 			// Add returns an error when the pair is already in ct.loaded: an error return control dependent on an == over serviceRef
 			found := false
